@@ -127,7 +127,9 @@ def val_term(v):
         return "(PInt %s)" % zlit(v[1])
     if kind == "obj":
         return "PObj"
-    if kind in ("hdrs", "hdrs_list", "hdrs_obj"):
+    if kind == "hdrs":          # a dict: later duplicates replace earlier
+        return "(PHdrs (Some %s))" % hdrs_term(list(dict(v[1]).items()))
+    if kind in ("hdrs_list", "hdrs_obj"):
         return "(PHdrs (Some %s))" % hdrs_term(v[1])
     if kind == "hdrs_bad":
         return "(PHdrs None)"
@@ -453,3 +455,22 @@ def status_table_ok():
     block = re.search(r"known_codes : list Z :=\s*\[(.*?)\]", src, re.S)
     mine = sorted(int(x) for x in re.findall(r"\d+", block.group(1)))
     return mine == sorted(responses), mine, sorted(responses)
+
+
+def run_scenarios(ctx, name, scenarios):
+    """run every scenario on the implementation, queue the correspondence
+    with the model, return [(scenario, answer, trace)]"""
+    ok, mine, theirs = status_table_ok()
+    if not ok:
+        ctx.unproved("status-code table of model/DispatchRun.v",
+                     {"model": mine, "interpreter": theirs})
+    out, cases = [], []
+    for sc in scenarios:
+        ans, trace = sc.run()
+        out.append((sc, ans, trace))
+        cases.append((sc.term(), observe(ans, trace), sc.describe()))
+    ctx.correspondence(name, IMPORTS, cases, lambda p: p)
+    return out
+
+
+FAILING = ("abort", "abortresp", "throw", "conn", "exit")
